@@ -39,6 +39,9 @@ DECIDED = [
     "C12.11 the object hierarchy is walked components-first (an image-level abort precedes any vm-level effect of the same call)",
     "C12.12 the per-object loops read only the drilled-down per-object parameters",
     "C12.11w the object iteration never writes its input parameters; C12.4g a root that is about to be set/removed is not fetched by the prerequisite check (known finding F40)",
+    'C12.4v object type tests inside operations that are reached with the chain restricted to its last type accept the restricted spelling',
+    'C12.5v push/pop remove the suffixed state/mode variants of the delegated operation before it resolves the parameters again',
+    'C12.13 every per-object loop starts with the skipped-type and read-only-image guards',
 ]
 NOT_DECIDED = ["set-of-names store model over operation sequences", "non-interference between objects at run time"]
 EXHAUSTIVE = True
